@@ -123,7 +123,18 @@ def op_symshape(axes: str) -> str:
         ann = dltype.TensorTypeBase[shape]
     except Exception as e:  # noqa: BLE001
         return f"str={s} => " + impl.exc_line(e)
-    return f"str={s} => ok " + impl.show_ann(ann)
+    # the same Shape object subscripted into several tensor classes, one after the other: each must be the annotation that the
+    # class builds from the printed string
+    diff = []
+    for cn in ("FloatTensor", "IntTensor", "BoolTensor", "TensorTypeBase", "Float32Tensor", "FloatTensor"):
+        cls = getattr(dltype, cn)
+        try:
+            a, b = cls[shape], cls[s]
+            if type(a) is not type(b) or a.DTYPES != b.DTYPES or impl.show_ann(a) != impl.show_ann(b):
+                diff.append(f"{cn}:{type(a).__name__}")
+        except Exception as e:  # noqa: BLE001
+            diff.append(f"{cn}:{type(e).__name__}")
+    return f"str={s} => ok " + impl.show_ann(ann) + " same-as-string=" + ("1" if not diff else "0(" + ",".join(diff) + ")")
 
 
 impl.HANDLERS["SYM"] = op_sym
